@@ -7,6 +7,75 @@ From DS.gen Require Import BitPackingGen.
 Import ListNotations.
 Local Open Scope N_scope.
 
+(* ---- the generic loops pack_bits / unpack_bits (used for a tail of fewer than 8 values) ----
+   Their control flow depends only on (bits, offset), never on the data, so for a given width b and
+   count c they unroll into straight-line programs of the same language. This unrolling is a
+   hand-written rendering of the two loops in bit_packing.hpp (validated by the correspondence runs);
+   the block routines for c = 8 are the TRANSLATED ones. *)
+Fixpoint unroll_pack_full (fuel i bits j : nat) : list stmt * nat * nat :=
+  match fuel with
+  | O => ([], j, 0%nat)
+  | S f =>
+      if (8 <=? bits)%nat then
+        let '(r, j', o) := unroll_pack_full f i (bits - 8) (S j) in
+        (SetByte j (Cast U8 (Shr (Val i) (bits - 8))) :: r, j', o)
+      else if (0 <? bits)%nat then ([SetByte j (Cast U8 (Shl (Val i) (8 - bits)))], j, bits)
+      else ([], j, 0%nat)
+  end.
+
+Definition unroll_pack1 (i bits j offset : nat) : list stmt * nat * nat :=
+  if (0 <? offset)%nat then
+    let chunk := (8 - offset)%nat in
+    let mask := 2 ^ N.of_nat chunk - 1 in
+    if (bits <? chunk)%nat then
+      ([OrByte j (And (Shl (Val i) (chunk - bits)) mask)], j, (offset + bits)%nat)
+    else
+      let '(r, j', o) := unroll_pack_full 40 i (bits - chunk) (S j) in
+      (OrByte j (And (Shr (Val i) (bits - chunk)) mask) :: r, j', o)
+  else unroll_pack_full 40 i bits j.
+
+Fixpoint unroll_pack_from (n i bits j offset : nat) : list stmt :=
+  match n with
+  | O => []
+  | S n' => let '(st, j', o') := unroll_pack1 i bits j offset in st ++ unroll_pack_from n' (S i) bits j' o'
+  end.
+Definition unroll_pack (b c : nat) : list stmt := unroll_pack_from c 0 b 0 0.
+
+Fixpoint unroll_unpack_full (fuel i bits j : nat) : list stmt * nat * nat :=
+  match fuel with
+  | O => ([], j, 0%nat)
+  | S f =>
+      if (8 <=? bits)%nat then
+        let '(r, j', o) := unroll_unpack_full f i (bits - 8) (S j) in
+        (SetVal i (Shl (Val i) 8) :: OrVal i (Byte j) :: r, j', o)
+      else if (0 <? bits)%nat then
+        ([SetVal i (Shl (Val i) bits); OrVal i (Shr (Byte j) (8 - bits))], j, bits)
+      else ([], j, 0%nat)
+  end.
+
+Definition unroll_unpack1 (i bits j offset : nat) : list stmt * nat * nat :=
+  let avail := (8 - offset)%nat in
+  let chunk := Nat.min avail bits in
+  let mask := 2 ^ N.of_nat chunk - 1 in
+  let st0 := SetVal i (And (Shr (Byte j) (avail - chunk)) mask) in
+  let j1 := if (avail =? chunk)%nat then S j else j in
+  let off1 := ((offset + chunk) mod 8)%nat in
+  let bits1 := (bits - chunk)%nat in
+  if (8 <=? bits1)%nat || (0 <? bits1)%nat then
+    let '(r, j', o) := unroll_unpack_full 40 i bits1 j1 in (st0 :: r, j', o)
+  else ([st0], j1, off1).
+
+Fixpoint unroll_unpack_from (n i bits j offset : nat) : list stmt :=
+  match n with
+  | O => []
+  | S n' => let '(st, j', o') := unroll_unpack1 i bits j offset in st ++ unroll_unpack_from n' (S i) bits j' o'
+  end.
+Definition unroll_unpack (b c : nat) : list stmt := unroll_unpack_from c 0 b 0 0.
+
+Definition pack_prog_c (b c : nat) : list stmt := if (c =? 8)%nat then pack_prog b else unroll_pack b c.
+Definition unpack_prog_c (b c : nat) : list stmt := if (c =? 8)%nat then unpack_prog b else unroll_unpack b c.
+Definition nbytes (b c : nat) : nat := ((c * b + 7) / 8)%nat.
+
 (* ---- executable block functions built from the translated programs ---- *)
 Fixpoint all_some {A} (l : list (option A)) : option (list A) :=
   match l with
@@ -15,28 +84,34 @@ Fixpoint all_some {A} (l : list (option A)) : option (list A) :=
   | None :: _ => None
   end.
 
-Definition pack_block (b : nat) (vals : list N) : option (list N) :=
-  match exec (map Some vals, repeat None b) (pack_prog b) with
+(* pack c values of b bits (c = 8: the translated block routine; c < 8: the generic loop) *)
+Definition pack_vals (b c : nat) (vals : list N) : option (list N) :=
+  match exec (map Some vals, repeat None (nbytes b c)) (pack_prog_c b c) with
   | Some st => all_some (snd st)
   | None => None
   end.
 
-Definition unpack_block (b : nat) (bytes : list N) : option (list N) :=
-  match exec (repeat None 8, map Some bytes) (unpack_prog b) with
+Definition unpack_vals (b c : nat) (bytes : list N) : option (list N) :=
+  match exec (repeat None c, map Some bytes) (unpack_prog_c b c) with
   | Some st => all_some (fst st)
   | None => None
   end.
 
+Definition pack_block (b : nat) (vals : list N) := pack_vals b 8 vals.
+Definition unpack_block (b : nat) (bytes : list N) := unpack_vals b 8 bytes.
+
 (* ---- symbolic initial states and expected results ---- *)
 Definition in_word (b i : nat) : sword := map (fun k => Some (SV i k)) (seq 0 b).
 Definition byte_word (j : nat) : sword := map (fun k => Some (SB j k)) (seq 0 8).
-Definition pack_init (b : nat) : sstate := (map (fun i => Some (in_word b i)) (seq 0 8), repeat None b).
-Definition unpack_init (b : nat) : sstate := (repeat None 8, map (fun j => Some (byte_word j)) (seq 0 b)).
+Definition pack_init (b c : nat) : sstate := (map (fun i => Some (in_word b i)) (seq 0 c), repeat None (nbytes b c)).
+Definition unpack_init (b c : nat) : sstate := (repeat None c, map (fun j => Some (byte_word j)) (seq 0 (nbytes b c))).
 
-(* documented layout: the block is the concatenation of the eight b-bit values, most significant bit
-   first; stream position p = 8*j + t is bit (7 - t) of byte j and bit (b - 1 - p mod b) of value p / b *)
-Definition pack_expected (b j k : nat) : sbit :=          (* bit k of byte j *)
-  let p := (8 * j + (7 - k))%nat in Some (SV (p / b) (b - 1 - p mod b)).
+(* documented layout: the image is the concatenation of the b-bit values, most significant bit first,
+   padded with zero bits to a whole byte; stream position p = 8*j + t is bit (7 - t) of byte j and
+   bit (b - 1 - p mod b) of value p / b *)
+Definition pack_expected (b c j k : nat) : sbit :=        (* bit k of byte j *)
+  let p := (8 * j + (7 - k))%nat in
+  if (p <? c * b)%nat then Some (SV (p / b) (b - 1 - p mod b)) else None.
 Definition unpack_expected (b i k : nat) : sbit :=        (* bit k of value i *)
   if (k <? b)%nat then let p := (i * b + (b - 1 - k))%nat in Some (SB (p / 8) (7 - p mod 8)) else None.
 
@@ -50,40 +125,37 @@ Definition sbit_eqb (a b : sbit) : bool :=
 Definition word_ok (w : sword) (len : nat) (expected : nat -> sbit) : bool :=
   (length w <=? len)%nat && forallb (fun k => sbit_eqb (nth k w None) (expected k)) (seq 0 len).
 
-Definition check_pack (b : nat) : bool :=
-  match sexec (pack_init b) (pack_prog b) with
+Definition check_pack (b c : nat) : bool :=
+  match sexec (pack_init b c) (pack_prog_c b c) with
   | Some st =>
-      (length (snd st) =? b)%nat &&
+      (length (snd st) =? nbytes b c)%nat &&
       forallb (fun j => match nth j (snd st) None with
-                        | Some w => word_ok w 8 (pack_expected b j)
-                        | None => false end) (seq 0 b)
+                        | Some w => word_ok w 8 (pack_expected b c j)
+                        | None => false end) (seq 0 (nbytes b c))
   | None => false
   end.
 
-Definition check_unpack (b : nat) : bool :=
-  match sexec (unpack_init b) (unpack_prog b) with
+Definition check_unpack (b c : nat) : bool :=
+  match sexec (unpack_init b c) (unpack_prog_c b c) with
   | Some st =>
-      (length (fst st) =? 8)%nat &&
+      (length (fst st) =? c)%nat &&
       forallb (fun i => match nth i (fst st) None with
                         | Some w => word_ok w 64 (unpack_expected b i)
-                        | None => false end) (seq 0 8)
+                        | None => false end) (seq 0 c)
   | None => false
   end.
 
-(* The 126 reflexive obligations: discharged by computation on the translated source. *)
-Lemma all_routines_check : forallb (fun b => check_pack b && check_unpack b) (seq 1 63) = true.
+(* The reflexive obligations (63 widths x 8 counts x {pack, unpack}; count 8 = the 126 translated
+   routines): discharged by computation on the translated source. *)
+Lemma all_routines_check :
+  forallb (fun b => forallb (fun c => check_pack b c && check_unpack b c) (seq 1 8)) (seq 1 63) = true.
 Proof. vm_compute. reflexivity. Qed.
 
-Lemma check_pack_ok b : (1 <= b <= 63)%nat -> check_pack b = true.
+Lemma checks_ok b c : (1 <= b <= 63)%nat -> (1 <= c <= 8)%nat -> check_pack b c = true /\ check_unpack b c = true.
 Proof.
-  intros H. pose proof all_routines_check as A. rewrite forallb_forall in A.
-  specialize (A b). rewrite in_seq in A. apply andb_prop in A; [tauto | lia].
-Qed.
-
-Lemma check_unpack_ok b : (1 <= b <= 63)%nat -> check_unpack b = true.
-Proof.
-  intros H. pose proof all_routines_check as A. rewrite forallb_forall in A.
-  specialize (A b). rewrite in_seq in A. apply andb_prop in A; [tauto | lia].
+  intros Hb Hc. pose proof all_routines_check as A. rewrite forallb_forall in A.
+  specialize (A b). rewrite in_seq in A. specialize (A ltac:(lia)). rewrite forallb_forall in A.
+  specialize (A c). rewrite in_seq in A. specialize (A ltac:(lia)). apply andb_prop in A. exact A.
 Qed.
 
 (* ---- from the checks to statements about all inputs ---- *)
@@ -153,25 +225,28 @@ Proof.
   - intros i Hi. rewrite map_length, seq_length in Hi. rewrite nth_map_seq by lia. now apply Hf.
 Qed.
 
-Lemma dstate_pack_init b vals :
-  length vals = 8%nat -> Forall (fun v => v < 2 ^ N.of_nat b) vals ->
-  dstate (rho_vals vals) (pack_init b) = (map Some vals, repeat None b).
+Lemma map_dopt_repeat_none rho n : map (dopt rho) (repeat None n) = repeat None n.
+Proof. induction n as [|n IH]; [reflexivity|]. cbn [repeat map]. rewrite IH. reflexivity. Qed.
+
+Lemma dstate_pack_init b c vals :
+  length vals = c -> Forall (fun v => v < 2 ^ N.of_nat b) vals ->
+  dstate (rho_vals vals) (pack_init b c) = (map Some vals, repeat None (nbytes b c)).
 Proof.
   intros Hl Hv. unfold dstate, pack_init; cbn [fst snd]. f_equal.
-  - rewrite map_map. rewrite <- (map_seq_nth_eq (fun i => Some (nth i vals 0)) (map Some vals) None 8).
+  - rewrite map_map. rewrite <- (map_seq_nth_eq (fun i => Some (nth i vals 0)) (map Some vals) None c).
     + apply map_ext_in. intros i Hi. apply in_seq in Hi. unfold dopt; cbn [option_map]. f_equal.
       apply dw_in_word; [reflexivity|]. rewrite Forall_forall in Hv. apply Hv. apply nth_In. lia.
     + now rewrite map_length.
     + intros i Hi. rewrite nth_indep with (d' := Some 0) by (rewrite map_length; lia). now rewrite map_nth.
-  - clear. induction b as [|b IH]; [reflexivity|]. cbn [repeat map]. rewrite IH. reflexivity.
+  - apply map_dopt_repeat_none.
 Qed.
 
-Lemma dstate_unpack_init b bytes :
-  length bytes = b -> Forall (fun v => v < 2 ^ N.of_nat 8) bytes ->
-  dstate (rho_bytes bytes) (unpack_init b) = (repeat None 8, map Some bytes).
+Lemma dstate_unpack_init b c bytes :
+  length bytes = nbytes b c -> Forall (fun v => v < 2 ^ N.of_nat 8) bytes ->
+  dstate (rho_bytes bytes) (unpack_init b c) = (repeat None c, map Some bytes).
 Proof.
-  intros Hl Hv. unfold dstate, unpack_init; cbn [fst snd]. f_equal.
-  rewrite map_map. rewrite <- (map_seq_nth_eq (fun j => Some (nth j bytes 0)) (map Some bytes) None b).
+  intros Hl Hv. unfold dstate, unpack_init; cbn [fst snd]. f_equal; [apply map_dopt_repeat_none|].
+  rewrite map_map. rewrite <- (map_seq_nth_eq (fun j => Some (nth j bytes 0)) (map Some bytes) None (nbytes b c)).
   - apply map_ext_in. intros j Hj. apply in_seq in Hj. unfold dopt; cbn [option_map]. f_equal.
     apply dw_byte_word; [reflexivity|]. rewrite Forall_forall in Hv. apply Hv. apply nth_In. lia.
   - now rewrite map_length.
@@ -196,23 +271,26 @@ Proof.
     + apply Hnth; [lia|assumption].
 Qed.
 
-Theorem pack_block_layout b vals :
-  (1 <= b <= 63)%nat -> length vals = 8%nat -> Forall (fun v => v < 2 ^ N.of_nat b) vals ->
-  exists bytes, pack_block b vals = Some bytes /\ length bytes = b /\
+Theorem pack_vals_layout b c vals :
+  (1 <= b <= 63)%nat -> (1 <= c <= 8)%nat -> length vals = c -> Forall (fun v => v < 2 ^ N.of_nat b) vals ->
+  exists bytes, pack_vals b c vals = Some bytes /\ length bytes = nbytes b c /\
     Forall (fun x => x < 2 ^ N.of_nat 8) bytes /\
-    forall j k, (j < b)%nat -> (k < 8)%nat ->
+    forall j k, (j < nbytes b c)%nat -> (k < 8)%nat ->
       N.testbit (nth j bytes 0) (N.of_nat k) =
-      N.testbit (nth ((8 * j + (7 - k)) / b) vals 0) (N.of_nat (b - 1 - (8 * j + (7 - k)) mod b)).
+      if (8 * j + (7 - k) <? c * b)%nat
+      then N.testbit (nth ((8 * j + (7 - k)) / b) vals 0) (N.of_nat (b - 1 - (8 * j + (7 - k)) mod b))
+      else false.
 Proof.
-  intros Hb Hl Hv. pose proof (check_pack_ok b Hb) as C. unfold check_pack in C.
-  destruct (sexec (pack_init b) (pack_prog b)) as [st|] eqn:Hs; [|discriminate].
+  intros Hb Hc Hl Hv. destruct (checks_ok b c Hb Hc) as [C _]. unfold check_pack in C.
+  destruct (sexec (pack_init b c) (pack_prog_c b c)) as [st|] eqn:Hs; [|discriminate].
   apply andb_prop in C. destruct C as [Clen Call]. apply Nat.eqb_eq in Clen. rewrite forallb_forall in Call.
   pose proof (sexec_sound (rho_vals vals) _ _ _ Hs) as E. rewrite dstate_pack_init in E by assumption.
-  unfold pack_block. rewrite E. unfold dstate; cbn [snd].
-  assert (Hw : forall j, (j < b)%nat -> exists w, nth j (snd st) None = Some w /\ word_ok w 8 (pack_expected b j) = true).
+  unfold pack_vals. rewrite E. unfold dstate; cbn [snd].
+  assert (Hw : forall j, (j < nbytes b c)%nat ->
+                 exists w, nth j (snd st) None = Some w /\ word_ok w 8 (pack_expected b c j) = true).
   { intros j Hj. specialize (Call j). rewrite in_seq in Call. specialize (Call ltac:(lia)).
     destruct (nth j (snd st) None) as [w|]; [|discriminate]. eauto. }
-  destruct (all_some_map_dopt (rho_vals vals) (snd st) b Clen) as [out [Ho [Hlen Hnth]]].
+  destruct (all_some_map_dopt (rho_vals vals) (snd st) (nbytes b c) Clen) as [out [Ho [Hlen Hnth]]].
   { intros j Hj. destruct (Hw j Hj) as [w [H1 _]]. eauto. }
   exists out. split; [exact Ho|]. split; [exact Hlen|]. split.
   - apply Forall_forall. intros x Hx. apply In_nth with (d := 0) in Hx. destruct Hx as [j [Hj <-]].
@@ -220,27 +298,28 @@ Proof.
     now apply (word_ok_spec (rho_vals vals)) in H2.
   - intros j k Hj Hk. destruct (Hw j Hj) as [w [H1 H2]]. rewrite (Hnth j w Hj H1).
     apply (word_ok_spec (rho_vals vals)) in H2. destruct H2 as [_ H2]. rewrite H2.
-    destruct (Nat.ltb_spec k 8); [|lia]. reflexivity.
+    destruct (Nat.ltb_spec k 8); [|lia]. unfold pack_expected.
+    destruct (8 * j + (7 - k) <? c * b)%nat; reflexivity.
 Qed.
 
-Theorem unpack_block_layout b bytes :
-  (1 <= b <= 63)%nat -> length bytes = b -> Forall (fun v => v < 2 ^ N.of_nat 8) bytes ->
-  exists vals, unpack_block b bytes = Some vals /\ length vals = 8%nat /\
-    forall i k, (i < 8)%nat ->
+Theorem unpack_vals_layout b c bytes :
+  (1 <= b <= 63)%nat -> (1 <= c <= 8)%nat -> length bytes = nbytes b c -> Forall (fun v => v < 2 ^ N.of_nat 8) bytes ->
+  exists vals, unpack_vals b c bytes = Some vals /\ length vals = c /\
+    forall i k, (i < c)%nat ->
       N.testbit (nth i vals 0) (N.of_nat k) =
       if (k <? b)%nat then N.testbit (nth ((i * b + (b - 1 - k)) / 8) bytes 0)
                                      (N.of_nat (7 - (i * b + (b - 1 - k)) mod 8))
       else false.
 Proof.
-  intros Hb Hl Hv. pose proof (check_unpack_ok b Hb) as C. unfold check_unpack in C.
-  destruct (sexec (unpack_init b) (unpack_prog b)) as [st|] eqn:Hs; [|discriminate].
+  intros Hb Hc Hl Hv. destruct (checks_ok b c Hb Hc) as [_ C]. unfold check_unpack in C.
+  destruct (sexec (unpack_init b c) (unpack_prog_c b c)) as [st|] eqn:Hs; [|discriminate].
   apply andb_prop in C. destruct C as [Clen Call]. apply Nat.eqb_eq in Clen. rewrite forallb_forall in Call.
   pose proof (sexec_sound (rho_bytes bytes) _ _ _ Hs) as E. rewrite dstate_unpack_init in E by assumption.
-  unfold unpack_block. rewrite E. unfold dstate; cbn [fst].
-  assert (Hw : forall i, (i < 8)%nat -> exists w, nth i (fst st) None = Some w /\ word_ok w 64 (unpack_expected b i) = true).
+  unfold unpack_vals. rewrite E. unfold dstate; cbn [fst].
+  assert (Hw : forall i, (i < c)%nat -> exists w, nth i (fst st) None = Some w /\ word_ok w 64 (unpack_expected b i) = true).
   { intros i Hi. specialize (Call i). rewrite in_seq in Call. specialize (Call ltac:(lia)).
     destruct (nth i (fst st) None) as [w|]; [|discriminate]. eauto. }
-  destruct (all_some_map_dopt (rho_bytes bytes) (fst st) 8 Clen) as [out [Ho [Hlen Hnth]]].
+  destruct (all_some_map_dopt (rho_bytes bytes) (fst st) c Clen) as [out [Ho [Hlen Hnth]]].
   { intros i Hi. destruct (Hw i Hi) as [w [H1 _]]. eauto. }
   exists out. split; [exact Ho|]. split; [exact Hlen|].
   intros i k Hi. destruct (Hw i Hi) as [w [H1 H2]]. rewrite (Hnth i w Hi H1).
@@ -250,25 +329,28 @@ Proof.
   - destruct (k <? 64)%nat; reflexivity.
 Qed.
 
-(* round trip: unpacking a packed block returns the eight values, for every input below 2^b *)
-Theorem unpack_pack_block b vals bytes :
-  (1 <= b <= 63)%nat -> length vals = 8%nat -> Forall (fun v => v < 2 ^ N.of_nat b) vals ->
-  pack_block b vals = Some bytes -> unpack_block b bytes = Some vals.
+(* round trip: unpacking a packed run returns the values, for every input below 2^b *)
+Theorem unpack_pack_vals b c vals bytes :
+  (1 <= b <= 63)%nat -> (1 <= c <= 8)%nat -> length vals = c -> Forall (fun v => v < 2 ^ N.of_nat b) vals ->
+  pack_vals b c vals = Some bytes -> unpack_vals b c bytes = Some vals.
 Proof.
-  intros Hb Hl Hv Hp.
-  destruct (pack_block_layout b vals Hb Hl Hv) as [bytes' [Hp' [Hlen [Hrange Hbits]]]].
+  intros Hb Hc Hl Hv Hp.
+  destruct (pack_vals_layout b c vals Hb Hc Hl Hv) as [bytes' [Hp' [Hlen [Hrange Hbits]]]].
   rewrite Hp in Hp'. injection Hp' as <-.
-  destruct (unpack_block_layout b bytes Hb Hlen Hrange) as [vals' [Hu [Hlen' Hbits']]].
+  destruct (unpack_vals_layout b c bytes Hb Hc Hlen Hrange) as [vals' [Hu [Hlen' Hbits']]].
   rewrite Hu. f_equal. apply nth_ext with (d := 0) (d' := 0); [lia|].
   intros i Hi. rewrite Hlen' in Hi. apply N.bits_inj. intros kk. rewrite <- (N2Nat.id kk). set (k := N.to_nat kk).
   rewrite (Hbits' i k Hi). destruct (Nat.ltb_spec k b) as [Hk|Hk].
   - set (p := (i * b + (b - 1 - k))%nat).
-    assert (Hpb : (p < 8 * b)%nat) by (unfold p; nia).
-    assert (Hj : (p / 8 < b)%nat) by (apply Nat.div_lt_upper_bound; lia).
+    assert (Hpb : (p < c * b)%nat) by (unfold p; nia).
+    assert (Hj : (p / 8 < nbytes b c)%nat).
+    { unfold nbytes. apply Nat.div_lt_upper_bound; [lia|].
+      pose proof (Nat.div_mod (c * b + 7) 8 ltac:(lia)). pose proof (Nat.mod_upper_bound (c * b + 7) 8 ltac:(lia)). lia. }
     assert (Ht : (p mod 8 < 8)%nat) by (apply Nat.mod_upper_bound; lia).
     rewrite (Hbits (p / 8)%nat (7 - p mod 8)%nat Hj ltac:(lia)).
     replace (8 * (p / 8) + (7 - (7 - p mod 8)))%nat with p
       by (pose proof (Nat.div_mod p 8 ltac:(lia)); lia).
+    destruct (Nat.ltb_spec p (c * b)); [|lia].
     assert (Hdiv : (p / b = i)%nat).
     { symmetry. apply Nat.div_unique with (r := (b - 1 - k)%nat); [lia|]. unfold p. lia. }
     assert (Hmod : (p mod b = b - 1 - k)%nat).
